@@ -41,8 +41,18 @@ func NewEval(opts CompilerOptions, globals Object, args ...Object) *Eval {
 
 // Run compiles, runs given script and returns last value on stack.
 func (r *Eval) Run(ctx context.Context, script []byte) (Object, *Bytecode, error) {
+	// A script that fails to compile may have registered modules whose
+	// constants are discarded with it, forget them.
+	savedStore := make(map[string]moduleStoreItem, len(r.moduleStore.store))
+	for k, v := range r.moduleStore.store {
+		savedStore[k] = v
+	}
+	savedCount := r.moduleStore.count
+
 	bytecode, err := compileScript(script, &r.Opts, &r.moduleStore)
 	if err != nil {
+		r.moduleStore.store = savedStore
+		r.moduleStore.count = savedCount
 		return nil, nil, err
 	}
 
